@@ -42,6 +42,42 @@ func topLevelStmtOf(m *model.Model, p *packages.Package, body *ast.BlockStmt, n 
 	return false
 }
 
+// unconditionalCounterUpdates counts the direct statements of body that increment a Prometheus counter on every
+// execution: an Inc/Add call, or a call of a same-repository function or local closure every body of which does.
+func unconditionalCounterUpdates(m *model.Model, p *packages.Package, body *ast.BlockStmt, depth int) int {
+	n := 0
+	for _, st := range body.List {
+		es, ok := st.(*ast.ExprStmt)
+		if !ok {
+			continue
+		}
+		call, ok := ast.Unparen(es.X).(*ast.CallExpr)
+		if !ok {
+			continue
+		}
+		if name, ok := isPromMetricCall(p.TypesInfo, call); ok {
+			if name == "Inc" || name == "Add" {
+				n++
+			}
+			continue
+		}
+		if depth == 0 {
+			continue
+		}
+		bodies := calleeBodies(m, p, call)
+		all := len(bodies) > 0
+		for _, b := range bodies {
+			if unconditionalCounterUpdates(m, b.Pkg, b.Body, depth-1) == 0 {
+				all = false
+			}
+		}
+		if all {
+			n++
+		}
+	}
+	return n
+}
+
 // FORWARDER
 func ruleForwarder() check.Rule {
 	return check.Rule{
@@ -256,6 +292,36 @@ func ruleCountOnce() check.Rule {
 						if x.name == "Inc" && !x.top {
 							c.Violation(fmt.Sprintf("%s/aggregate-counter#%d", sc, i+1), x.call.Pos(), "aggregate counter is incremented conditionally: the exported totals no longer equal the number of events")
 						}
+					}
+					// every counter the aggregate is handed is incremented unconditionally somewhere (subscribe body or a
+					// slot), directly or through a helper all of whose paths update a metric: a counter whose increments
+					// are accumulated and published later (a batch flushed every N events or at the terminal) is behind
+					// by what is pending, and a subscription that is torn down never publishes the rest
+					counters := 0
+					if sc.Decl != nil {
+						for _, pv := range model.FlattenParams(info, sc.Decl.Type.Params) {
+							if pv == nil {
+								continue
+							}
+							if o, _, _ := types.LookupFieldOrMethod(pv.Type(), true, sc.Pkg.Types, "Inc"); o != nil {
+								if _, isFn := o.(*types.Func); isFn && strings.Contains(pv.Type().String(), "prometheus") {
+									counters++
+								}
+							}
+						}
+					}
+					updates := unconditionalCounterUpdates(m, sc.Pkg, sc.Lit.Body, 3)
+					for _, sl := range slots {
+						if sl != nil {
+							updates += unconditionalCounterUpdates(m, sc.Pkg, sl.Body, 3)
+						}
+					}
+					c.Inc("aggregate_counters", counters)
+					key := sc.String() + "/counters-updated-directly"
+					if updates < counters {
+						c.Violation(key, sc.Lit.Pos(), "%s is handed %d counter(s) but only %d unconditional counter update(s) are made in its subscribe body and slots: an increment that is deferred, batched or conditional makes the exported total differ from the number of events (what is pending when the subscription is torn down is never published)", sc.Name, counters, updates)
+					} else {
+						c.OK(key, sc.Lit.Pos(), "%d counter parameter(s), %d unconditional update(s)", counters, updates)
 					}
 				}
 			}
